@@ -209,7 +209,9 @@ package region
 // (C01: "region moved / not serving" is the class that sends the client back to hbase:meta - classified as "retry later"
 // the request would keep going to the server the region has left)
 //@   ensures[C04,C01] relocateClass(class) ==> typeis(r0, "region.NotServingRegionError")
-//@   ensures[C04] serverDeadClass(class) ==> typeis(r0, "region.ServerError")
+// (C03: a server-fatal exception is a failure of the connection - classified as anything else the reader would not run the
+// failure transition and the other requests in flight would wait for ever)
+//@   ensures[C04,C03] serverDeadClass(class) ==> typeis(r0, "region.ServerError")
 // an IOException is the "region is gone from here" class exactly when its stack trace mentions the closed write-ahead log -
 // anywhere in the trace (a real trace begins with the class name, not with the message)
 //@   ensures[C04] class == "java.io.IOException" && strings.Contains(stack, "Cannot append; log is closed") ==> typeis(r0, "region.NotServingRegionError")
@@ -319,13 +321,14 @@ package region
 // every send that leaves requests outstanding restarts the read timeout, with the configured value (C18: a silent server
 // is detected within the read timeout of the *last* request sent - arming only on the 0 -> 1 transition would fail
 // requests that were sent shortly before an older deadline expires). Ghost rearmed[c] counts the arming calls of this operation.
-//@   hides X.rearmed "per-operation ghost: counts the SetReadDeadline calls of one inFlightUp"
+//@   hides X.rearmed, X.arms "per-operation ghosts: the SetReadDeadline calls of one inFlightUp"
 //@   at call SetReadDeadline#1 ghost rearmed[c] == ghostat("rearmed", c) + 1
 //@   at call Add#1 assert[C18] arg0 == c.readTimeout
 //@   ensures[C18] r0 == nil && ghostat("net", c) > 0 ==> ghostat("rearmed", c) == old(ghostat("rearmed", c)) + 1
 //@   panics never[C18]
 //@   ensures[C18] ghostat("net", c) == old(ghostat("net", c)) + 1
-//@   ensures[C18] r0 == nil ==> inflightInv(c)
+// (C20: a deadline armed with nothing outstanding tears a healthy connection down, and its server is dialled again)
+//@   ensures[C18,C20] r0 == nil ==> inflightInv(c)
 //@   ensures[C18] forall(k, k != c ==> ghostat("net", k) == old(ghostat("net", k)))
 
 //@ func region.(*client).inFlightDown
@@ -337,6 +340,11 @@ package region
 // the deadline is armed / cleared inside the critical section that updated the counter: outside it, a clear could wipe
 // the deadline another sender has just armed (a silent server would then never be detected)
 //@   at call SetReadDeadline#1 assert[C18] ghost("nheld") > 0
+// the reader only ever clears the deadline, it never (re)starts the timeout: the timeout runs from the last request sent, not
+// from the last response received - a server that answers one request and then goes silent on the others is detected within
+// the read timeout of the last send (ghost arms counts arming calls)
+//@   hides X.arms "per-operation ghost: arming calls of this operation"
+//@   ensures[C18] ghost("arms") == old(ghost("arms"))
 //@   panics never[C18]
 //@   ensures[C18] ghostat("net", c) == old(ghostat("net", c)) - 1
 //@   ensures[C18] r0 == nil ==> inflightInv(c)
@@ -390,14 +398,19 @@ package region
 //@ func region.canSerializeCellBlocks.SerializeCellBlocks(cbs) (msg, out, n)
 //@   modifies X.nser
 //@   ensures msg != nil && n == total(out)
+// (the cellblocks of a call are buffers of its own, never taken from the connection's buffer pool)
+//@   ensures forall(k, 0 <= k && k < len(out), ghostat("freed", refof(out[k])) != 1)
 //@   ensures ghostat("nser", recv) == old(ghostat("nser", recv)) + 1 && forall(k, k != recv ==> ghostat("nser", k) == old(ghostat("nser", k)))
 //@ func hrpc.Call.ToProto() (msg)
 //@   modifies X.nser
 //@   ensures ghostat("nser", recv) == old(ghostat("nser", recv)) + 1 && forall(k, k != recv ==> ghostat("nser", k) == old(ghostat("nser", k)))
 //@ func region.newBuffer
 //@   requires size >= 0
-//@   modifies nothing
+//@   modifies X.freed
 //@   ensures len(r0) == size && fresh(r0)
+// (ghost freed[array] = 1 while a buffer sits in the pool: what newBuffer hands out is in use again)
+//@   at return 1 ghost freed[refof(r0)] == 0
+//@   ensures ghostat("freed", refof(r0)) == 0 && forall(k, k != refof(r0) ==> ghostat("freed", k) == old(ghostat("freed", k)))
 
 // Block writer (C15): <4 bytes: total uncompressed length> then per chunk <4 bytes: encoded length><encoded chunk>.
 // total(cbs) = payload bytes not yet read; every chunk holds between 1 and ChunkLen payload bytes, the loop
@@ -408,7 +421,10 @@ package region
 //@   loop 1 invariant ghostold("alloc", refof(b)) != 1
 //@   requires c != nil && c.Codec != nil && c.Codec.ChunkLen() >= 1
 //@   requires total(cbs) == uncompressedLen
-//@   modifies nothing
+//@   modifies X.freed
+// (the block it returns has not been handed back to the pool)
+//@   ensures ghostat("freed", refof(r0)) != 1
+//@   loop 1 invariant ghostat("freed", refof(b)) != 1 && refof(b) != refof(uncompressedBuffer)
 //@   panics never[C15]
 //@   ensures[C15] len(r0) >= 4 && be32(r0) == uncompressedLen
 // the block carries the whole payload: when the writer returns, every payload byte has been read into some chunk (a block
@@ -422,7 +438,9 @@ package region
 // such a buffer must not go back to the pool - the next response would overwrite what an earlier caller is still reading
 //@ func region.freeBuffer
 //@   requires ghostat("retained", refof(b)) != 1
-//@   modifies nothing
+//@   modifies X.freed
+//@   at call Put#1 ghost freed[refof(b)] == 1
+//@   ensures ghostat("freed", refof(b)) == 1 && forall(k, k != refof(b) ==> ghostat("freed", k) == old(ghostat("freed", k)))
 //@ func region.(*client).Addr
 //@   modifies nothing
 //@ func region.(*client).write
@@ -432,7 +450,7 @@ package region
 
 //@ func region.(*client).send
 //@   requires rpc != nil && c.sent != nil && c.conn != nil && inflightInv(c) && netRange(c) && codecWF(c)
-//@   modifies F.region.client.id, F.region.client.inFlight, D.map[uint32]hrpc.Call, V.map[uint32]hrpc.Call, C.map[uint32]hrpc.Call, F.pb.RequestHeader.*, X.written, X.net, X.armed, X.pooled
+//@   modifies F.region.client.id, F.region.client.inFlight, D.map[uint32]hrpc.Call, V.map[uint32]hrpc.Call, C.map[uint32]hrpc.Call, F.pb.RequestHeader.*, X.written, X.net, X.armed, X.pooled, X.freed
 //@   panics never[C05]
 // every request with trailing cellblocks is emitted while a lock of the client is held (or, without cellblocks, in one Write call):
 // concurrent senders cannot interleave inside a frame whatever kind of net.Conn it is (C05)
@@ -445,6 +463,9 @@ package region
 //@   ensures[C02,C05] ghostat("nser", rpc) == old(ghostat("nser", rpc)) + 1
 //@   at call WriteTo#1 assert[C05] ghost("nheld") > 0
 //@   at call write#1 assert[C05] ghost("nheld") > 0
+// what is written has not been handed back to the buffer pool (C05, C02): a compressed block freed before the write can be
+// taken and overwritten by another sender, and this frame would then carry that sender's bytes
+//@   at call WriteTo#1 assert[C05,C02] forall(k, 0 <= k && k < len(cellblocks), ghostat("freed", refof(cellblocks[k])) != 1)
 // the call is registered before anything is written, and stays registered on every return path (C03)
 //@   ensures[C03] haskey(c.sent, r0) && c.sent[r0] == rpc
 //@   ensures[C03] forall(k, k != r0 ==> c.sent[k] == old(c.sent[k]) && haskey(c.sent, k) == old(haskey(c.sent, k)))
@@ -552,6 +573,10 @@ package region
 //@ func region.(*client).processRPCs
 //@   at call trySend#1 assume-shared clientInv(c) && multiWF(m) && liveDistinct(m) && forall(k, haskey(c.sent, k) ==> c.sent[k] != m)
 //@   at call trySend#1 assert[C03] ghostat("owed", m) == 0
+// when the goroutine ends, the batch it fails is the one being assembled then - not the first one it ever had (long sent,
+// answered, recycled by the pool and possibly in use by another connection: its callers would be told "client closed" and
+// the callers actually waiting here nothing) (C03, C02)
+//@   at call returnResults#1 assert[C03,C02] recv == m
 //@   at call newMulti#2 assert[C03] ghostat("owed", m) == 0
 // whatever arrives on the queue goes into the batch being assembled, whole (C03, C12): the three receive sites each
 // hand exactly the slice received to multi.add
